@@ -319,7 +319,7 @@ func (w *World) verifyFuncOnce(fi *FuncInfo, props []string, prefix []int, pathM
 				for _, k := range sortedKeys(c.heapSorts()) {
 					srt := c.heapSorts()[k]
 					he, hx := fx.entry.heap(k, srt), exit.heap(k, srt)
-					if he == hx || k == "NC" || k == "CLB" || k == "CNT" || k == "CNC" {
+					if he == hx || k == "NC" || k == "CLB" || k == "CNT" || k == "CNC" || k == "NRT" {
 						continue
 					}
 					// writes to objects allocated by this activation are invisible to the caller: every undeclared heap
@@ -350,6 +350,14 @@ func (w *World) verifyFuncOnce(fi *FuncInfo, props []string, prefix []int, pathM
 					c.oblige(exit, "frame", k+sfx, fmt.Sprintf("(= %s %s)", hx, he), "frame: "+k+" is not in the modifies clause and must be unchanged", w.pos(fi.Body.Rbrace))
 				}
 			}
+		}
+		if fi.Spec != nil && fi.Spec.Flags["emits"] == "opaque+calls" {
+			ex, perr := parseSpecExpr("forall p int :: old(evlen) <= p && p < evlen ==> isOpaque(ev(p)) || isCall(ev(p))")
+			if perr != nil {
+				panic(perr)
+			}
+			phi := fx.specBool(fx.specEnv(exit, fx.entry, fi.Body.Lbrace), ex)
+			c.oblige(exit, "post", "emits.opaque+calls"+sfx, phi, "emits only opaque events and interface-call events", w.pos(fi.Body.Rbrace))
 		}
 		if fi.Spec != nil && fi.Spec.Flags["emits"] == "opaque" {
 			phi := fmt.Sprintf("(forall ((k!p Int)) (=> (and (<= %s k!p) (< k!p %s)) (>= (ev_kind (select %s k!p)) %d)))", fx.entry.evlen, exit.evlen, exit.evlog, evKinds["Other"])
